@@ -321,7 +321,7 @@ class Gen:
         self.code.append('''
 static void run_enc_%(i)d(int form, unsigned char* buf, std::size_t len, vrt::tokens& t)
 {
-    %(view)s<char> m{reinterpret_cast<char*>(buf), len};
+    %(view)s<vrt_byte_t> m{reinterpret_cast<vrt_byte_t*>(buf), len};
     auto h = sbepp::fill_message_header(m);
     vrt::prz("r", "#hdr", static_cast<unsigned long long>(reinterpret_cast<const unsigned char*>(sbepp::addressof(h)) - g_base));
     vrt::prz("z", "#hdr", sbepp::size_bytes(h));
@@ -401,7 +401,7 @@ static void run_siz_%(i)d(vrt::tokens& t)
 
 static void run_hdr_%(i)d(unsigned char* buf, std::size_t len, unsigned long long n)
 {
-    %(view)s<char> m{reinterpret_cast<char*>(buf), len};
+    %(view)s<vrt_byte_t> m{reinterpret_cast<vrt_byte_t*>(buf), len};
     (void)n;
     auto h = sbepp::fill_message_header(m);
     vrt::prz("r", "#hdr", static_cast<unsigned long long>(reinterpret_cast<const unsigned char*>(sbepp::addressof(h)) - g_base));
@@ -430,12 +430,21 @@ HEAD = '''// generated codec driver for schema %(pkg)s
 #include <memory>
 
 static const unsigned char* g_base = nullptr;
+// byte type of the views (documented: any of char, unsigned char, std::byte): VRT_BYTE_KIND 0 char, 1 unsigned char, 2 std::byte
+#if defined(VRT_BYTE_KIND) && VRT_BYTE_KIND == 1
+typedef unsigned char vrt_byte_t;
+#elif defined(VRT_BYTE_KIND) && VRT_BYTE_KIND == 2
+#include <cstddef>
+typedef std::byte vrt_byte_t;
+#else
+typedef char vrt_byte_t;
+#endif
 #ifdef VRT_RO_ARENA
 // C11 run-time half: images live in PROT_READ memory and are read through *mutable* view types
 #include "vrt_arena.hpp"
-typedef char dec_byte_t;
+typedef vrt_byte_t dec_byte_t;
 #else
-typedef const char dec_byte_t;
+typedef const vrt_byte_t dec_byte_t;
 #endif
 '''
 
